@@ -60,6 +60,7 @@ def mutField (name : String) (tag : Nat) (m : Msg) : Msg :=
     | 2 => .sigma2Resume r (junk 2) s
     | 3 => .sigma2Resume r mc (junk 3)
     | _ => m
+  | "st", .status _ => if tag = 99 then .status true else m
   | _, _ => m
 
 structure Outcome where
@@ -97,29 +98,46 @@ def nameOf : Msg → String
 functions `stepResp` / `stepInit` the network theorem is about (`Model/CaseNet.lean`);
 `muts` = (message, field) pairs hit by a change on the first transmission -/
 def runHs (t : Time) (st : St) (cf : Fabric) (dfs : List Fabric) (peer : Nat)
-    (muts : List (String × Nat)) (edit : Msg → Msg := id) : Outcome × St :=
+    (muts : List (String × Nat)) (edit : Msg → Msg := id) (gap : Option String := none) :
+    Outcome × St × Bool :=
   let n := st.n
   let st := { st with n := n + 10 }
   let cfg : HsCfg :=
     { t := t, fabricsR := dfs, cacheR := st.cacheR, fI := cf, cacheI := st.cacheI, peer := peer,
       ephI := n + 1, ephR := n + 2, rndI := .atom (10000 + n), sidI := .atom (20000 + n),
       rndR := .atom (50000 + n), ridR := .atom (30000 + n), sidR := .atom (40000 + n) }
+  -- `gap`: the device's fabric 1 is removed while the responder waits inside `send_with`
+  let dfsGone := dfs.filter (fun f => f.idx != 1)
+  let cfgGone : HsCfg := { cfg with fabricsR := dfsGone }
   let app (m : Msg) : Msg :=
     muts.foldl (fun acc (nm, tag) => if nm = nameOf m then mutField nm tag acc else acc) m
   let i0 := IState.sent1 cfg.init0
-  let (r1, o1) := stepResp cfg .idle (edit (app cfg.init0.s1))
+  let m1 := edit (app cfg.init0.s1)
+  let (r1a, o1a) := stepResp cfg .idle m1
+  -- `gap=r2`: `Sigma2_Resume` went out (the MIC check does not look at the fabric table), then the
+  -- removal lands before `try_handle_sigma1_resume` looks the record's fabric up
+  let gapR2 : Bool := gap == some "r2" && (match o1a with | .sigma2Resume .. :: _ => true | _ => false)
+  let (r1, o1) := if gapR2 then stepResp cfgGone .idle m1 else (r1a, o1a)
   let (i1, p1) := match o1 with
     | m :: _ => stepInit cfg i0 (app m)
     | [] => (i0, [])
+  -- `gap=s2`: Sigma2 went out, the removal lands before `handle_casesigma3` re-reads the fabric by index
+  let gapS2 : Bool := gap == some "s2" && (match r1 with | .sent2 _ => true | _ => false)
   let (r2, o2) := match p1 with
-    | m :: _ => stepResp cfg r1 (app m)
+    | m :: _ =>
+      match gapS2, r1 with
+      | true, .sent2 ctx =>
+        match respSigma3At cfg.t dfsGone ctx (app m) with
+        | some p => (RState.done (some p), [Msg.status true])
+        | none => (RState.done none, [Msg.status false])
+      | _, _ => stepResp cfg r1 (app m)
     | [] => (r1, [])
   let (i2, _) := match o2 with
     | m :: _ => stepInit cfg i1 (app m)
     | [] => (i1, [])
-  let via := match r1 with
-    | .sent2r _ => "r"
-    | .sent2 _ => "f"
+  let via := match o1 with
+    | .sigma2Resume .. :: _ => "r"
+    | .sigma2 .. :: _ => "f"
     | _ => "-"
   let cI := match i2.result with
     | some (_, rI) => Cache.insertOrUpdate capDefault st.cacheI rI
@@ -128,7 +146,7 @@ def runHs (t : Time) (st : St) (cf : Fabric) (dfs : List Fabric) (peer : Nat)
     | some (_, rR) => Cache.insertOrUpdate capDefault st.cacheR rR
     | none => st.cacheR
   ({ ctl := i2.result.map (·.1), dev := r2.result.map (·.1), via := via },
-   { st with cacheI := cI, cacheR := cR })
+   { st with cacheI := cI, cacheR := cR }, gapR2 || gapS2)
 
 /-! ## oracle: the clauses of the property on what the implementation reports -/
 
@@ -359,6 +377,8 @@ def predictableMuts (mu : Option (String × String × Nat)) : Option (List (Stri
   | some (m, "f", a) => some [(m, a)]
   | some (m, "y", a) => some [(m, a)]
   | some (m, "Y", _) => some [(m, 6), (m, 7)]
+  -- a forged success report in the place of a status report
+  | some ("st", "S", _) => some [("st", 99)]
   -- one VALID value in the place of another: handled by `validSubst`
   | some (_, "d", _) => some []
   | some (_, "q", _) => some []
@@ -449,6 +469,8 @@ def step (st : St) (line : String) : St × String :=
       let mu := (Driver.C19.kv "mut" rest).bind parseMut
       let sched := Driver.C19.kv "sched" rest
       let raced := (words out).contains "raced"
+      let gapped := (words out).contains "gapped"
+      let gap := Driver.C19.kv "gap" rest
       let ora := oracle t cf ctlOf devOf (st.dev.isSome || st.dev2.isSome) out
       let preC := (parseCache st.implCc).getD []
       let preD := (parseCache st.implDc).getD []
@@ -473,9 +495,11 @@ def step (st : St) (line : String) : St × String :=
       -- model prediction: unmutated runs and single-field changes on a perfect network
       let pm := if sched.isNone ∧ ¬ raced then predictableMuts mu else none
       let predictable : Bool := pm.isSome
-      let (o, st') := runHs t st cf ([st.dev, st.dev2].filterMap id) (peerOf fab) (pm.getD []) validSubst
+      let (o, st', gapT) := runHs t st cf ([st.dev, st.dev2].filterMap id) (peerOf fab) (pm.getD []) validSubst gap
       -- the RemoveFabric state changes ran on the device during this handshake
       let st' := if raced then { st' with dev := none } else st'
+      let st' := if gapped then { st' with dev := none, cacheR := Cache.removeForFabric st'.cacheR 1 } else st'
+      let raced := raced || gapped
       let ora := ora <|> (if raced ∧ field out "dev" ≠ "none" then
           some s!"the device holds a session of a fabric that was removed while the handshake was in flight: {out}" else none)
       let ora := ora <|> (if raced ∧ ((parseCache (field out "dc")).getD []).any (fun r => r.fab == 1) then
@@ -490,8 +514,9 @@ def step (st : St) (line : String) : St × String :=
       | some w => (resync stNext, s!"ORA {w}")
       | none =>
         if predictable then
-          let want := fmtOutcome o
-          let got := s!"ctl={field out "ctl"} dev={field out "dev"} keys={field out "keys"} via={field out "via"}"
+          let want := fmtOutcome o ++ (if gapT then " gapped" else "")
+          let got := s!"ctl={field out "ctl"} dev={field out "dev"} keys={field out "keys"} via={field out "via"}" ++
+            (if gapped then " gapped" else "")
           if want ≠ got then (resync stNext, s!"DIS {want}")
           else if shapeOf postC ≠ modelShape stNext.cacheI ∨ shapeOf postD ≠ modelShape stNext.cacheR then
             (resync stNext, s!"DIS cache shapes cc={modelShape stNext.cacheI} dc={modelShape stNext.cacheR}")
